@@ -90,6 +90,7 @@ func rulePXDict(c *Ctx) []Obligation {
 			// the event stream
 			var got []string
 			sorted := -1
+			otherFile := ""
 			for _, e := range p.Events {
 				switch e.Kind {
 				case "write":
@@ -109,6 +110,7 @@ func rulePXDict(c *Ctx) []Obligation {
 						}
 						if e.Args[0].String() != "p0" {
 							got = append(got, "render with file "+e.Args[0].String())
+							otherFile = e.Recv.String() + " against " + e.Args[0].String()
 						}
 					}
 				case "call":
@@ -187,6 +189,12 @@ func rulePXDict(c *Ctx) []Obligation {
 				okStream = sameList(merged, w2)
 			}
 			t.note(fmt.Sprintf("with %s the output is %s", arity(n), dictForm(n)), okStream, "path %s (%d live pair(s)) produces %v, expected %v", traceOf(p), n, merged, want)
+			// the ordering text and the output come from the same File: a key rendered against another File
+			// (a scratch copy, a fresh one) resolves package names differently, so two keys that print
+			// differently can tie in the ordering and keep the map's iteration order (C07-s23)
+			if n >= 1 {
+				t.note("every key and value is rendered against the file the Dict is rendered against", otherFile == "", "path %s: renders %s", traceOf(p), otherFile)
+			}
 			if n >= 2 {
 				t.note("all live pairs are sorted together before anything is written", sorted == n, "path %s: the sort call is handed %d of the %d live pairs", traceOf(p), sorted, n)
 			}
